@@ -57,6 +57,7 @@ class Profile:
         self.poly_prob = rng.choice(b.get("poly_prob", [0.0, 0.05, 0.15]))
         self.perm_points_prob = rng.choice(b.get("perm_points_prob", [0.0, 0.2, 0.4]))
         self.frac_prob = rng.choice(b.get("frac_prob", [0.0, 0.0, 0.1, 0.3]))
+        self.affine_prob = rng.choice(b.get("affine_prob", [0.0, 0.05, 0.15]))
         self.fresh_names = rng.random() < b.get("fresh_names_prob", 0.3)
         self.arm_prob = rng.choice(b.get("arm_prob", [0.1, 0.25, 0.25, 0.5]))
         self.miss_prob = rng.choice(b.get("miss_prob", [0.2, 0.4, 0.6]))
@@ -287,6 +288,31 @@ def gen_world(rng, pr):
             cand = ({"op": rng.choice(["Add", "Add", "Add", "Minus"])}, terms)
             if cand[0]["op"] == "Minus":
                 cand = (cand[0], terms[:2])
+            special = True
+        elif rng.random() < pr.affine_prob:
+            # a function of a linear combination, f(2x + y - 3z): the partials are the same expression up to
+            # a small constant factor (and a sign), which is where "equal up to ..." shortcuts go wrong
+            vs_ = ord_vars + trip_vars
+            if len(vs_) < 2:
+                continue
+            terms = []
+            for v in rng.sample(vs_, rng.randint(2, min(3, len(vs_)))):
+                if rng.random() < 0.4:
+                    terms.append(var_ids[v])
+                else:
+                    c = add({"op": "Constant", "value": rng.choice([2, -1, -2, 3, 0.5, 2.0, -2.0])})
+                    pair = [c, var_ids[v]] if rng.random() < 0.5 else [var_ids[v], c]
+                    terms.append(add({"op": "Multiply"}, pair))
+            inner = add({"op": "Add"}, terms)
+            outer = rng.choice(["Cosine", "Sine", "Exponential", "Logarithm", "NthPower", "Reciprocal"])
+            if outer in lib.UNARY:
+                cand = ({"op": outer}, [inner])
+            elif outer == "NthPower":
+                cand = ({"op": outer, "n": rng.choice([2, 3])}, [inner])
+            elif outer == "Exponential":
+                cand = ({"op": outer, "base": rng.choice(BASES_EXP)}, [inner])
+            else:
+                cand = ({"op": outer, "base": rng.choice(BASES_LOG)}, [inner])
             special = True
         elif rng.random() < pr.base_one_prob:
             # Power whose variable-free base evaluates to exactly 1: the library short-cuts this case on
@@ -794,7 +820,7 @@ C06_BASE = {
     "const_pool": C06_CONST, "grid": C06_GRID,
     # constants like 1e200 are representable but their squares (quotient rule) are not: routes then differ
     # by silent under/overflow, which C06's "up to rounding / inside the double range" proviso excludes
-    "ovf_mid": False, "frac_prob": [0.0],
+    "ovf_mid": False, "frac_prob": [0.0], "affine_prob": [0.05, 0.15, 0.3],
 }
 
 
